@@ -424,6 +424,9 @@ type FuncContract struct {
 	Opts       map[string]string
 	Line       int
 	Pure       bool
+	// TrustedEnsures are postconditions assumed at call sites but not proved from the body (each use is listed
+	// in the evidence as an assumption).
+	TrustedEnsures []*Clause
 }
 
 type SpecFunc struct {
@@ -571,7 +574,7 @@ func ParseContractText(data, path, pkg string) (*ContractFile, error) {
 	cf := &ContractFile{Path: path, Pkg: pkg, Funcs: map[string]*FuncContract{}, Types: map[string]*TypeDecl{}}
 	keywords := map[string]bool{"spec": true, "func": true, "lemma": true, "type": true, "property": true, "mode": true,
 		"requires": true, "ensures": true, "modifies": true, "loop": true, "inline": true, "allow": true, "assumed": true,
-		"ghost": true, "invariant": true, "opt": true, "uses": true, "axiom": true, "thorough": true, "pure": true,
+		"ghost": true, "invariant": true, "opt": true, "uses": true, "axiom": true, "thorough": true, "pure": true, "trusted": true,
 		"backends": true, "timeout": true, "decl": true, "opaque": true, "inline-loop": true}
 	var raws []rawClause
 	for i, ln := range strings.Split(data, "\n") {
@@ -815,6 +818,15 @@ func ParseContractText(data, path, pkg string) (*ContractFile, error) {
 			}
 			curF.Assumed = true
 			curF.AssumedWhy = rc.text
+		case "trusted":
+			if curF == nil {
+				return nil, errf(rc, "trusted outside func")
+			}
+			c, err := parseClause(rc.text, rc.line)
+			if err != nil {
+				return nil, fmt.Errorf("%s: %v", path, err)
+			}
+			curF.TrustedEnsures = append(curF.TrustedEnsures, c)
 		case "pure":
 			if curF == nil {
 				return nil, errf(rc, "pure outside func")
